@@ -187,3 +187,48 @@ def gen_phase(repo):
     return text, [f'np.exp argument: {ast.unparse(arg)}', f'real multiplier: {t}']
 
 MODULES.append({'name': 'PlanePhase', 'src': 'lentil/plane.py', 'generator': gen_phase, 'props': ['C07', 'C03']})
+
+
+# ---------------------------------------------------------------------------------------------------------------------
+# Wiring of the Wavefront views: which of field / intensity / insert starts from zeros(self.shape), iterates
+# lentil.field.reduce(self.data) rather than self.data, asks lentil.field.insert for intensity=True, passes weight=weight.
+def gen_views(repo):
+    import os
+    mod = ast.parse(open(os.path.join(repo, 'lentil/wavefront.py')).read())
+    L = ['/-- how a view of `Wavefront` drives `lentil.field.insert` -/',
+         'structure ViewWiring where\n  zeros : Bool\n  reduce : Bool\n  intensity : Bool\n  weighted : Bool\nderiving DecidableEq, Repr\n']
+    notes = []
+    for meth in ('field', 'intensity', 'insert'):
+        fn = _find_method(mod, 'Wavefront', meth)
+        st = [s for s in fn.body if not (isinstance(s, ast.Expr) and isinstance(s.value, ast.Constant))]
+        zeros = False
+        if isinstance(st[0], ast.Assign) and ast.unparse(st[0].targets[0]) == 'out':
+            v = st[0].value
+            if not (isinstance(v, ast.Call) and ast.unparse(v.func) == 'np.zeros' and ast.unparse(v.args[0]) == 'self.shape'):
+                raise Refuse(f'Wavefront.{meth}: initialisation of out not understood: {ast.unparse(st[0])}')
+            zeros = True; st = st[1:]
+        elif 'out' not in [a.arg for a in fn.args.args]: raise Refuse(f'Wavefront.{meth}: no out array')
+        if len(st) != 2 or not isinstance(st[0], ast.For) or ast.unparse(st[1]) != 'return out': raise Refuse(f'Wavefront.{meth}: body shape changed')
+        loop = st[0]
+        it = ast.unparse(loop.iter)
+        if it == 'self.data': red = False
+        elif it == 'lentil.field.reduce(self.data)': red = True
+        else: raise Refuse(f'Wavefront.{meth}: iterates {it}')
+        if len(loop.body) != 1 or not isinstance(loop.body[0], ast.Assign) or ast.unparse(loop.body[0].targets[0]) != 'out':
+            raise Refuse(f'Wavefront.{meth}: loop body changed')
+        call = loop.body[0].value
+        if not (isinstance(call, ast.Call) and ast.unparse(call.func) == 'lentil.field.insert' and [ast.unparse(a) for a in call.args] == [ast.unparse(loop.target), 'out']):
+            raise Refuse(f'Wavefront.{meth}: not out = lentil.field.insert(field, out, ...)')
+        kw = {k.arg: ast.unparse(k.value) for k in call.keywords}
+        if set(kw) - {'intensity', 'weight'}: raise Refuse(f'Wavefront.{meth}: insert keywords {kw}')
+        inten = {'True': True, 'False': False, None: False}.get(kw.get('intensity'), 'bad')
+        if inten == 'bad': raise Refuse(f'Wavefront.{meth}: intensity={kw["intensity"]}')
+        if kw.get('weight') not in (None, 'weight'): raise Refuse(f'Wavefront.{meth}: weight={kw["weight"]}')
+        w = 'weight' in kw
+        b = lambda x: 'true' if x else 'false'
+        L.append(f'/-- translated from `wavefront.py:Wavefront.{meth}` (line {fn.lineno}) -/')
+        L.append(f'def {meth}Wiring : ViewWiring := {{ zeros := {b(zeros)}, reduce := {b(red)}, intensity := {b(inten)}, weighted := {b(w)} }}\n')
+        notes.append(f'{meth}: zeros={zeros} reduce={red} intensity={inten} weighted={w}')
+    return '\n'.join(L), notes
+
+MODULES.append({'name': 'WfViews', 'src': 'lentil/wavefront.py', 'generator': gen_views, 'props': ['C07', 'C03']})
